@@ -94,11 +94,12 @@ type Explorer struct {
 	maxSamples int
 	witnesses []Sample // candidates for native witness replay
 	start     time.Time
+	seed      int64
 }
 
 func NewExplorer(seed int64, maxPaths int, deadline time.Time) *Explorer {
 	e := &Explorer{findings: map[string]*Finding{}, reached: map[string]int{}, funcs: map[string]bool{}, stubs: map[string]bool{},
-		rng: rand.New(rand.NewSource(seed)), maxPaths: maxPaths, deadline: deadline, maxSamples: 6, start: time.Now()}
+		rng: rand.New(rand.NewSource(seed)), maxPaths: maxPaths, deadline: deadline, maxSamples: 6, start: time.Now(), seed: seed}
 	e.cond = sync.NewCond(&e.mu)
 	return e
 }
@@ -108,6 +109,10 @@ func (e *Explorer) push(items []*WorkItem) {
 		return
 	}
 	e.mu.Lock()
+	// VERIF_SEED varies the exploration order (and thereby which completed paths become witness samples)
+	if e.seed != 1 && len(items) > 1 {
+		e.rng.Shuffle(len(items), func(i, j int) { items[i], items[j] = items[j], items[i] })
+	}
 	e.stack = append(e.stack, items...)
 	e.Forks += len(items)
 	e.mu.Unlock()
